@@ -170,6 +170,11 @@ def rangeJudge (h : List Char) (R : List Nat) (resp : Response) : Option String 
     | _, _ => some "processRangeRequest/other-ranges-than-requested"
 
 def encodingJudge (ae : List Char) (gz : Bool) : Option String :=
-  if gz && !clientAcceptsGzip ae then some "GetOrHeadHandler/gzip-for-client-not-accepting-it" else none
+  if gz && !clientAcceptsGzip ae then
+    -- the substring test of the handler is one defect (`gzip;q=0`, `notgzipped`); gzip for a client whose header does not even
+    -- contain the word is another
+    (if containsSub gzipWord ae then some "GetOrHeadHandler/gzip-for-client-not-accepting-it"
+     else some "GetOrHeadHandler/gzip-although-accept-encoding-does-not-mention-it")
+  else none
 
 end SwV.Spec.C32
